@@ -2,7 +2,7 @@ PLAN = dict(
     id="C07", pkg="c07", level="exploration", cli=True,
     rule=("lib (in-process, real temp files): ObtainIntegrityBlock + ComputeWebBundleSha512 + a history of 1..4 SignAndAddNewSignature calls on one "
           "IntegrityBlockSigner; files = filler of boundary/random length 0..64 KiB, the repository's testfile.wbn or a freshly written b2 bundle, with a trailing "
-          "length field that is correct, too small (incl. a genuinely signed file), or larger than the file (incl. >= 2^63); keys derived from drawn seeds; per "
+          "length field that is correct, too small (incl. a genuinely signed file), or larger than the file (incl. >= 2^63); keys derived from drawn seeds (a third of the later steps sign with the key of an earlier step again, mostly through the SAME strategy object); per "
           "signature 0..3 extra attributes with UTF-8 names sorting before/after the mandatory key and values of every CBOR length class; strategies honest "
           "(the repository's and an own one), wrong public key, corrupted signature, short signature, Sign error. Oracle after every step: honest => nil, stack "
           "grew by one at index 0 with older entries unchanged, CborBytes decodes (refcbor) to [magic, 1b\\0\\0, [[attrs, sig]...]] exactly, is core-deterministic "
@@ -23,6 +23,6 @@ PLAN = dict(
         dict(name="lib", run="^(TestPropLib|TestCorpus)$", checks=(8000, 100000), shards=(1, 16), timeout=(300, 3600)),
         dict(name="cli", run="^TestPropCLI$", checks=(40, 2000), shards=(1, 1), timeout=(300, 3600)),
     ],
-    require=[("lib", "dishonest-wrong-key"), ("lib", "history>=2"), ("lib", "extra-attrs"), ("lib", "already-signed-input"), ("lib", "length-too-large"),
+    require=[("lib", "strategy-object-reused"), ("lib", "dishonest-wrong-key"), ("lib", "history>=2"), ("lib", "extra-attrs"), ("lib", "already-signed-input"), ("lib", "length-too-large"),
              ("cli", "signed-ok"), ("cli", "already-signed-input"), ("cli", "length-too-large")],
 )
